@@ -141,6 +141,14 @@ def run(chk):
                         chk.cov["stopping_flow_max_drift"] = max(chk.cov.get("stopping_flow_max_drift", 0.0), dO, df)
                         if dO > 1e-2 or df > 1e-2 / scs["n"] * 5:
                             mon.append((scs, 0, f"texture kept evolving after the velocity gradient dropped to zero inside an update: orientations {dO:.3e}, fractions {df:.3e}"))
+            # a null regime supplied through get_regime to a mineral constructed in a dislocation regime
+            for given in (0, 7):
+                scg = MT.scenario(rng, regime=4, n=int(rng.integers(3, 10)), nupd=2, lkind="general")
+                scg["regime_switch"] = [given, given, 0.0]
+                scg["params"]["gbs_threshold"] = 0.0
+                hg = c01.run_history(rec, scg)
+                c01.validate_traces(chk, hg, bad)
+                mon += [(scg, k, m) for k, m in null_history_fails(hg, kf)]
             # viscosity-bound regimes under every flow
             for regime in (0, 7):
                 for lk in MT.L_FAMILIES:
